@@ -177,6 +177,12 @@ Theorem C08_from_table_const : forall c tab d v, validate_input tab = OK (inl (d
 Proof. exact from_table_const_sound. Qed.
 Print Assumptions C08_from_table_const.
 
+Theorem C08_from_table_dedup_refuted :
+  exists c tab w, from_table c tab = OK w /\ table_valid tab = true /\ zdiv (WTable c tab) c = false /\
+    oQeqb (sample w c (last_t tab)) (Some 1) = true /\ oQeqb (sample (WTable c tab) c (last_t tab)) (Some 2) = true.
+Proof. exact from_table_dedup_refuted. Qed.
+Print Assumptions C08_from_table_dedup_refuted.
+
 (* from_parallel (flatten nested multi-channel waveforms + sort) samples like MultiChannelWaveform of the same parts *)
 Theorem C08_from_parallel : forall l w w', (2 <= length l)%nat ->
   from_parallel l = OK w' -> mk_multi l = OK w ->
